@@ -29,6 +29,7 @@ def REQUIRED(tier):  # noqa: N802
     return {"compositions_checked": 119 if tier == "quick" else 270,
             "decodes": 3000, "dropped_games": 200, "odd_n_decodes": 300,
             "gameplan_object_decodes": 500, "big_n_decodes": 8,
+            "long_narrow_plan_decodes": 16,
             "suite_runs": 1,
             "contract_map_games_evaluated": 1000}
 
@@ -265,6 +266,43 @@ def decode_shard(ctx, count, part, parts):
             check_decode(ctx, n, 1, days, p, dest, None, sp)
             ctx.count("big_n_decodes")
             ctx.count(f"big_n[{n}]")
+    # long plans in the narrow plan type (<= 127 teams -> int8) with more
+    # than 128 / 256 days, decoded from a permutation that lists a complete
+    # schedule day by day (what a good search point looks like), and from
+    # neighbours of it
+    from vlib.oracles import ttp as ot
+    for n, r in [[(24, 12), (18, 16), (4, 86), (6, 52), (4, 44), (10, 15)][
+            int(v)] for v in rng.choice(6, 2, replace=False)]:
+        sp = search_space_for_n_and_rounds(n, r)
+        bp = [int(v) for v in sp.blueprint]
+        codes: dict = {}
+        for g in bp:
+            h, a = game_to_pair(g, n)
+            codes.setdefault((min(h, a), max(h, a)), []).append(g)
+        sched = ot.circle_method(n, r, bool(rng.integers(2)))
+        p = []
+        for day in sched:
+            for a, v in enumerate(day):
+                if v > 0:
+                    b = v - 1
+                    p.append(codes[(min(a, b), max(a, b))].pop())
+        if sorted(p) != sorted(bp):
+            ctx.inconclusive_because("day-ordered permutation is not a "
+                                     "permutation of the blueprint")
+            break
+        days = (n - 1) * r
+        dt = int_range_to_dtype(-n, n)
+        variants = [("schedule", p)]
+        for _ in range(3):
+            q = list(p)
+            i, j = (int(v) for v in rng.choice(len(q), 2, replace=False))
+            q[i], q[j] = q[j], q[i]
+            variants.append(("schedule+swap", q))
+        for tag, q in variants:
+            dest = np.full((days, n), 3, dt)
+            check_decode(ctx, n, r, days, q, dest, None, sp)
+            ctx.count("long_narrow_plan_decodes")
+            ctx.count(f"perm[{tag}]")
     it = 0
     while done < count:
         n, r = combos[int(rng.integers(len(combos)))]
